@@ -15,13 +15,13 @@ fn c09_layered_collect_new_span() { let c0 = Cfg::any(); let cc = Cfg::any(); le
 #[kani::unwind(22)]
 #[kani::stub(core::fmt::Formatter::pad, pad_stub)]
 #[kani::stub(sharded_slab::Pool::clear, stub_pool_clear)]
-fn c09_layered_collect_record() { let c0 = Cfg::any(); let cc = Cfg::any(); let l = stack(c0, cc); let vs = META.fields().value_set(&[]); let r = span::Record::new(&vs); let id = span::Id::from_u64(7); l.record(&id, &r); assert!(only(2, C_RECORD) && only(0, S_ON_RECORD), "C09.Layered.collector_and_layer_exactly_once"); assert!(before(2, C_RECORD, 0, S_ON_RECORD), "C09.Layered.inner_before_outer"); }
+fn c09_layered_collect_record() { let c0 = Cfg::any(); let cc = Cfg::any(); let l = stack(c0, cc); let vs = META.fields().value_set(&[]); let r = span::Record::new(&vs); let id = span::Id::from_u64(7); l.record(&id, &r); assert!(only(2, C_RECORD) && only(0, S_ON_RECORD), "C09.Layered.collector_and_layer_exactly_once"); assert!(before(2, C_RECORD, 0, S_ON_RECORD), "C09.Layered.inner_before_outer"); assert!(ARG_A[0].load(AO::SeqCst) == addr(&id) && ARG_B[0].load(AO::SeqCst) == addr(&r) && ARG_A[2].load(AO::SeqCst) == addr(&id) && ARG_B[2].load(AO::SeqCst) == addr(&r), "C09.same_arguments"); }
 
 #[kani::proof]
 #[kani::unwind(22)]
 #[kani::stub(core::fmt::Formatter::pad, pad_stub)]
 #[kani::stub(sharded_slab::Pool::clear, stub_pool_clear)]
-fn c09_layered_collect_record_follows_from() { let c0 = Cfg::any(); let cc = Cfg::any(); let l = stack(c0, cc); let id = span::Id::from_u64(7); let f = span::Id::from_u64(8); l.record_follows_from(&id, &f); assert!(only(2, C_FOLLOWS) && only(0, S_ON_FOLLOWS_FROM), "C09.Layered.collector_and_layer_exactly_once"); assert!(before(2, C_FOLLOWS, 0, S_ON_FOLLOWS_FROM), "C09.Layered.inner_before_outer"); }
+fn c09_layered_collect_record_follows_from() { let c0 = Cfg::any(); let cc = Cfg::any(); let l = stack(c0, cc); let id = span::Id::from_u64(7); let f = span::Id::from_u64(8); l.record_follows_from(&id, &f); assert!(only(2, C_FOLLOWS) && only(0, S_ON_FOLLOWS_FROM), "C09.Layered.collector_and_layer_exactly_once"); assert!(before(2, C_FOLLOWS, 0, S_ON_FOLLOWS_FROM), "C09.Layered.inner_before_outer"); assert!(ARG_A[0].load(AO::SeqCst) == addr(&id) && ARG_B[0].load(AO::SeqCst) == addr(&f) && ARG_A[2].load(AO::SeqCst) == addr(&id) && ARG_B[2].load(AO::SeqCst) == addr(&f), "C09.same_arguments"); }
 
 #[kani::proof]
 #[kani::unwind(22)]
@@ -33,13 +33,13 @@ fn c09_layered_collect_event() { let c0 = Cfg::any(); let cc = Cfg::any(); let l
 #[kani::unwind(22)]
 #[kani::stub(core::fmt::Formatter::pad, pad_stub)]
 #[kani::stub(sharded_slab::Pool::clear, stub_pool_clear)]
-fn c09_layered_collect_enter() { let c0 = Cfg::any(); let cc = Cfg::any(); let l = stack(c0, cc); let id = span::Id::from_u64(7); l.enter(&id); assert!(only(2, C_ENTER) && only(0, S_ON_ENTER), "C09.Layered.collector_and_layer_exactly_once"); assert!(before(2, C_ENTER, 0, S_ON_ENTER), "C09.Layered.inner_before_outer"); }
+fn c09_layered_collect_enter() { let c0 = Cfg::any(); let cc = Cfg::any(); let l = stack(c0, cc); let id = span::Id::from_u64(7); l.enter(&id); assert!(only(2, C_ENTER) && only(0, S_ON_ENTER), "C09.Layered.collector_and_layer_exactly_once"); assert!(before(2, C_ENTER, 0, S_ON_ENTER), "C09.Layered.inner_before_outer"); assert!(ARG_A[0].load(AO::SeqCst) == addr(&id) && ARG_A[2].load(AO::SeqCst) == addr(&id), "C09.same_arguments"); }
 
 #[kani::proof]
 #[kani::unwind(22)]
 #[kani::stub(core::fmt::Formatter::pad, pad_stub)]
 #[kani::stub(sharded_slab::Pool::clear, stub_pool_clear)]
-fn c09_layered_collect_exit() { let c0 = Cfg::any(); let cc = Cfg::any(); let l = stack(c0, cc); let id = span::Id::from_u64(7); l.exit(&id); assert!(only(2, C_EXIT) && only(0, S_ON_EXIT), "C09.Layered.collector_and_layer_exactly_once"); assert!(before(2, C_EXIT, 0, S_ON_EXIT), "C09.Layered.inner_before_outer"); }
+fn c09_layered_collect_exit() { let c0 = Cfg::any(); let cc = Cfg::any(); let l = stack(c0, cc); let id = span::Id::from_u64(7); l.exit(&id); assert!(only(2, C_EXIT) && only(0, S_ON_EXIT), "C09.Layered.collector_and_layer_exactly_once"); assert!(before(2, C_EXIT, 0, S_ON_EXIT), "C09.Layered.inner_before_outer"); assert!(ARG_A[0].load(AO::SeqCst) == addr(&id) && ARG_A[2].load(AO::SeqCst) == addr(&id), "C09.same_arguments"); }
 
 #[kani::proof]
 #[kani::unwind(22)]
@@ -69,7 +69,7 @@ fn c09_layered_collect_drop_span() { let c0 = Cfg::any(); let cc = Cfg::any(); l
 #[kani::unwind(22)]
 #[kani::stub(core::fmt::Formatter::pad, pad_stub)]
 #[kani::stub(sharded_slab::Pool::clear, stub_pool_clear)]
-fn c09_layered_collect_clone_span() { let c0 = Cfg::any(); let cc = Cfg::any(); let l = stack(c0, cc); let old = span::Id::from_u64(7); let got = l.clone_span(&old); assert!(only(2, C_CLONE_SPAN), "C09.Layered.collector_clone_span_once"); if cc.clone_same { assert!(got == old && silent(0), "C09.Layered.same_id_no_id_change"); } else { assert!(got.into_u64() == cc.new_id && only(0, S_ON_ID_CHANGE), "C09.Layered.id_change_notified_once"); } }
+fn c09_layered_collect_clone_span() { let c0 = Cfg::any(); let cc = Cfg::any(); let l = stack(c0, cc); let old = span::Id::from_u64(7); let got = l.clone_span(&old); assert!(only(2, C_CLONE_SPAN), "C09.Layered.collector_clone_span_once"); if cc.clone_same { assert!(got == old && silent(0), "C09.Layered.same_id_no_id_change"); } else { assert!(got.into_u64() == cc.new_id && only(0, S_ON_ID_CHANGE) && ARG_A[0].load(AO::SeqCst) == 7 && ARG_B[0].load(AO::SeqCst) == cc.new_id as usize, "C09.Layered.id_change_notified_once_with_old_then_new"); } }
 
 #[kani::proof]
 #[kani::unwind(22)]
